@@ -195,6 +195,17 @@ check("C15", "any request gets a well-formed answer", "exploration",
       "DESIGN.md §3 C15",
       [R("^TestC15$", 8000, 400000), R("^FuzzC15$", 0, 0, fuzz=600, tiers=("thorough",))])
 
+check("C09", "a crash at any filesystem step loses nothing acknowledged and tears nothing", "fault_enumeration",
+      "rapid generator of request histories x enumeration of crash points (every mutating file-system call of the fault-free run, modes before/after/torn-write) through the vfs shim; oracle = layout validator + acknowledged-prefix model + all-or-nothing on the interrupted request",
+      "Generated histories are interpreted once without faults to number the mutating file-system calls of internal/store; then each numbered call is a crash point in three modes (quick: up to 14 points per "
+      "history, drawn; thorough: all of them, exhaustive per history): the history is re-executed on a fresh root, the simulated process dies at the point (later mutations suppressed, goroutine parked, no Close), "
+      "and a new server opens the tree. Checked: every read answers without 5xx, the tree is a loadable layout with every blob file hashing to its name, every tag pulls completely, every acknowledged request "
+      "is still in effect, and the interrupted request is wholly absent or wholly present; a crash inside a collection must leave the tagged closure intact and a repeated collection must converge.",
+      "Trusted: the source rewrite that routes os.* calls of internal/store through the shim (checked for completeness at build time); process-crash model only (no loss of un-synced pages, as the property states); "
+      "crash point k is 'the k-th mutating call of this run' (session ids and temp names are random); referrers membership is outside the all-or-nothing comparison while finding C09/torn-referrers-update is open.",
+      "DESIGN.md §3 C09",
+      [R("^TestC09$", 64, 2400, timeout=(1200, 3300))], variant="vfs")
+
 NOT_APPLICABLE = {}
 
 # --------------------------------------------------------------------------- helpers
